@@ -750,7 +750,10 @@ Refines ==
 NoPred == Family \in {"DUP", "MX"}
 Verdicts == [i \in DOMAIN res |-> IF NoPred THEN "?" ELSE IF res[i] = Skip THEN "x" ELSE IF res[i].ok THEN "T" ELSE "F"]
 Targets == IF ~NoPred /\ DrOf(cs) # "refused" /\ ROK(cs) THEN SetToSeq(DesignatedTargets(cs, DrOf(cs))) ELSE <<>>
-Emit == phase = "done" => PrintT(<<"CASE", ToJson([u |-> cs, exp |-> Verdicts, dr |-> DrOf(cs), res |-> IF Family = "MX" THEN "?" ELSE IF ROK(cs) THEN "ok" ELSE "err",
+\* (family DY, mixed universes: a Loader document whose final reference names a resource EMBEDDED in the root by its URI
+\* is the known finding KF-crossdoc - L0 designates the resource, the package asks the Loader)
+Feat == IF Family = "DY" /\ DrOf(cs) # "refused" /\ HasCrossEmb(cs, DrOf(cs)) THEN <<"crossdoc-embedded">> ELSE <<>>
+Emit == phase = "done" => PrintT(<<"CASE", ToJson([feat |-> Feat, u |-> cs, exp |-> Verdicts, dr |-> DrOf(cs), res |-> IF Family = "MX" THEN "?" ELSE IF ROK(cs) THEN "ok" ELSE "err",
                                                    targets |-> Targets])>>)
 
 ASSUME PrintT(<<"INSTS", ToJson(Insts)>>)
